@@ -84,21 +84,23 @@ def toAns (env : Env) (n : Nat) : Res → Ans
 /-- ```
 async def _callback(keys, backend):                                  # tags.py, `_on_remove_callback`
     for tag, _keys in self._group_by_tags(keys).items():
-        tags_backend = self.tags_backend                             # `_get_backend("_tag:")`
+        tags_backend = self._get_backend(self._tags_key_prefix + tag)    # resolved on every call, by the tag key
         if tags_backend.is_disable(Command.SET_REMOVE): continue
         await tags_backend.set_remove(self._tags_key_prefix + tag, *_keys)
 ```
-one invocation whose keys carry the tags `tags`; `none` = `NotConfiguredError` (no backend for `_tag:`).
-The tags backend is asked DIRECTLY (not through the middleware stack), in the context of the task
-that caused the deletion. -/
-def removeCallback (t : Table) (w : World) (c : Nat) (tags : List (List Nat)) : Option (List Call) :=
-  if tags.isEmpty then some []
-  else
-    match t.getBackend tagPrefix with
+one invocation whose keys carry the tags `tags`; `none` = `NotConfiguredError` (no backend for a tag key).
+The backend of each tag key is looked up in the CURRENT table on every call (fix D48: no memo that
+survives a later `setup()` / `setup_tags_backend()`), by the longest prefix of the tag key itself — the
+backend `set_add(_tag:<tag>, …)` of the tagged write was routed to — and is asked DIRECTLY (not through
+the middleware stack), in the context of the task that caused the deletion. -/
+def removeCallback (t : Table) (w : World) (c : Nat) : List (List Nat) → Option (List Call)
+  | [] => some []
+  | tag :: r =>
+    match t.getBackend (tagKey tag) with
     | none => none
     | some tb =>
-      some (if isDisable w c tb [.setRemove] then []
-            else tags.map fun tag => ⟨.raw tb, .setRemove, [tagKey tag]⟩)
+      (removeCallback t w c r).map fun rest =>
+        if isDisable w c tb [.setRemove] then rest else ⟨.raw tb, .setRemove, [tagKey tag]⟩ :: rest
 
 /-- all invocations a backend makes while it runs one call -/
 def callbacksOf (t : Table) (w : World) (c : Nat) : List (List (List Nat)) → Option (List Call)
@@ -164,7 +166,7 @@ def Prog.run (t : Table) (w : World) (c : Nat) (inTx inv : Bool) (env : Env) :
     | none => ([], .notConfigured, ini)
     | some x =>
       match callbacksFrom t w c env n x.2.1.length with
-      | none => ([.sub f x.2.1 []], .notConfigured, x.2.2)     -- the callback found no backend for `_tag:`
+      | none => ([.sub f x.2.1 []], .notConfigured, x.2.2)     -- the callback found no backend for a tag key
       | some cbs =>
         if toAns env n x.1 = .raised then ([.sub f x.2.1 cbs], .raised, x.2.2)
         else
